@@ -16,6 +16,11 @@ described and once with every length input multiplied by k; every numeric value 
 equal the unscaled run (d = declared dimension of the hook / attribute), geometry objects vertex by vertex, classifiers,
 iteration counts and vertex counts must be equal.  Hooks without a declared dimension are reported, never skipped silently.
 End-to-end homogeneity of solved sequences is validated by sampling only (partial).
+The relation is between two EXECUTIONS: a parameter study (several near-identical grooves built one after the other), a
+second solve on used objects and the values readable before solve are executions too, and are compared member by member.
+Besides the formulas, T checks what it silently assumes of the files it reads (driver/translate/c11_dims.structure_items):
+no wrapping decorators, no module-level state, every module-level number a declared quantity; accepted inhomogeneous items
+are pinned WITH their translated term (EXPECTED_TERMS, theorem C11.inhomogeneous_terms_pinned).
 """
 import math
 import os
@@ -33,7 +38,13 @@ RULE = ("(a) every generated term x random positive environments: Lean Float eva
         "class; residuals at the root the real solver returns; np.isclose); (b) two-run relation: grooves of every class x "
         "parameter sets x real size x k over 6 decades, profile factories x k over 6 decades, solved sequences of <= 5 units "
         "(two-/three-roll passes, transports by duration and by length, rotators) described in m / dm / inch / cm / mm and "
-        "compared pairwise (k in {1e-3, 1e-2, 1/25.4, 1/39.37, 10, 25.4, 39.37, 100, 1e3}); velocity loops in m/s vs mm/s. "
+        "compared pairwise (k in {1e-3, 1e-2, 1/25.4, 1/39.37, 10, 25.4, 39.37, 100, 1e3}); velocity loops in m/s vs mm/s; "
+        "corpus of past findings first; finely sampled tangent-continuous spline contours (CAD style, 0.25 - 5 degree per "
+        "segment) of thin-wire to bloom size, as grooves and inside passes; parameter studies (2-4 near-identical parameter "
+        "sets of one class built one after the other in one process, per description); the sequence layouts for products "
+        "of 1 mm .. 300 mm (range ends first) with explicit drives (surface / working / stock velocity, nominal diameter); "
+        "sizing stands taking 0.03 % .. 3 % off the height; every fourth sequence solved twice on the used objects; every "
+        "hook readable BEFORE solve compared on separately built objects. "
         "non-trivial = the pair has k != 1 and the objects could be built in both descriptions; distinct by rounded spec.")
 ASSUMPTIONS = [
     "IEEE rounding: the scaling laws are theorems over the reals; on floats the two-run relation is checked with rtol 1e-9 "
@@ -63,7 +74,54 @@ EXPECTED_INHOMOGENEOUS = {
     "profile/profile.py:Profile.local_width:arg:buffer#1": "absolute buffer 1e-12 around the cross-section",
     "sequence/sequence.py:PassSequence.solve_velocities_backward:cmp#1": "absolute stop test 0.01 on velocities",
     "sequence/sequence.py:PassSequence.solve_velocities_forward:cmp#1": "absolute stop test 0.01 on velocities",
+    "grooves/spline.py:SplineGroove.__init__:isclose#1": "np.isclose(first y, 0): absolute 1e-8 (acceptance of the contour)",
+    "grooves/spline.py:SplineGroove.__init__:isclose#2": "np.isclose(last y, 0): absolute 1e-8 (acceptance of the contour)",
+    "grooves/spline.py:SplineGroove.__init__:isclose#3":
+        "np.isclose(y, 0) strips the face runs: absolute 1e-8 - a vertex less than 1e-8 above the face is a face vertex "
+        "(bites for finely sampled fillets of thin-wire grooves described in metres: see notes/C11.md, finding 2)",
 }
+# the accepted items are accepted WITH THEIR VALUE: the translated term (Lean syntax) of each; a changed literal
+# (1e-9 -> 1e-6, atol=...) keeps the key but not the term.  Also pinned by theorem C11.inhomogeneous_terms_pinned.
+_ISCLOSE0 = '(.sub (.abs (.sub (.var "%s") (.nat 0))) (.add (.dec 1 8) (.mul (.dec 1 5) (.abs (.nat 0)))))'
+_ISCLOSE = '(.sub (.abs (.sub (.var "%s") (.var "%s"))) (.add (.dec 1 8) (.mul (.dec 1 5) (.abs (.var "%s")))))'
+_STOP = '(.sub (.abs (.sub (.var "prior_velocities") (.var "current_velocities"))) (.dec 1 2))'
+EXPECTED_TERMS = {
+    "profile/hookimpls.py:astm_grain_size_number#alt0":
+        '(.add (.nat 1) (.div (.log (.div (.div (.nat 1) (.mul .pi (.pow (.div (.div (.var "grain_size") (.dec 254 4)) '
+        '(.nat 2)) 2))) (.pow (.nat 100) 2))) (.log (.nat 2))))',
+    "roll_pass/hookimpls/base_roll_pass.py:contact_contour_lines:arg:buffer#1": "(.dec 1 9)",
+    "grooves/generic_elongation.py:GenericElongationGroove.__init__:isclose#1": _ISCLOSE0 % "depth",
+    "grooves/generic_elongation.py:GenericElongationGroove.__init__:isclose#2": _ISCLOSE0 % "depth",
+    "grooves/generic_elongation.py:GenericElongationGroove._enumerate_contour_points:isclose#1": _ISCLOSE % ("z1", "z3", "z3"),
+    "grooves/generic_elongation.py:GenericElongationGroove._enumerate_contour_points:isclose#2": _ISCLOSE % ("z3", "z4", "z4"),
+    "grooves/generic_elongation.py:GenericElongationGroove._enumerate_contour_points:isclose#3": _ISCLOSE % ("z4", "z5", "z5"),
+    "grooves/generic_elongation.py:GenericElongationGroove._enumerate_contour_points:isclose#4": _ISCLOSE % ("z5", "z6", "z6"),
+    "grooves/generic_elongation.py:GenericElongationGroove._enumerate_contour_points:isclose#5": _ISCLOSE % ("z6", "z7", "z7"),
+    "profile/profile.py:Profile.local_height:arg:buffer#1": "(.dec 1 12)",
+    "profile/profile.py:Profile.local_width:arg:buffer#1": "(.dec 1 12)",
+    "sequence/sequence.py:PassSequence.solve_velocities_backward:cmp#1": _STOP,
+    "sequence/sequence.py:PassSequence.solve_velocities_forward:cmp#1": _STOP,
+    "grooves/spline.py:SplineGroove.__init__:isclose#1": _ISCLOSE0 % "contour_points",
+    "grooves/spline.py:SplineGroove.__init__:isclose#2": _ISCLOSE0 % "contour_points",
+    "grooves/spline.py:SplineGroove.__init__:isclose#3": _ISCLOSE0 % "contour_points",
+}
+# the absolute tolerance on a COORDINATE of numpy's np.isclose default (accepted for the junction tests of the generic
+# groove): spline contours whose vertices come closer than twice this to the face line in the smaller description form
+# an input regime of their own (`_groove_regime`) - there C11.isclose_scale_stable does not protect a decision
+ACCEPTED_COORDINATE_ATOL = 1e-8
+
+
+def _load_corpus():
+    """past failures, run first (driver/props/c11_finding_*.json: replay objects of findings 2 and 3 of notes/C11.md)"""
+    import glob
+    import json
+    out = []
+    for f in sorted(glob.glob(os.path.join(os.path.dirname(__file__), "c11_finding_*.json"))):
+        out.append(json.load(open(f))["replay"])
+    return out
+
+
+CORPUS = _load_corpus()
 # hook-implementation alternatives outside the translatable subset (array construction, loops, try/except)
 EXPECTED_OPAQUE = {
     "roll/hookimpls.py:surface_x#alt0": "np.linspace / np.concatenate array construction (checked by the two-run oracle)",
@@ -80,6 +138,8 @@ IGNORED_DECISIONS = {
     "unit/unit.py:Unit.next:cmp#1": "list index",
     "sequence/sequence.py:PassSequence.__getitem__:cmp#1": "label comparison",
     "profile/profile.py:Profile.from_polygon:cmp#1": "number of holes",
+    "grooves/spline.py:SplineGroove.__init__:cmp#1": "rank of the coordinate array",
+    "grooves/spline.py:SplineGroove.__init__:cmp#2": "shape of the coordinate array",
 }
 
 UNITS = {"m": 1.0, "dm": 10.0, "inch": 1 / 0.0254, "cm": 100.0, "mm": 1000.0}
@@ -119,6 +179,10 @@ def _report(ctx, data):
                 f"not dimensionally homogeneous: {it.kind} {it.key} at {it.src} ({it.note}): declared L^{it.want}, "
                 f"certificate {c11_dims.lean_dim(it.got)}"
                 + (f"; variables without a declared dimension: {it.undeclared}" if it.undeclared else ""))
+        elif pyexpr.lean_expr(it.expr) != EXPECTED_TERMS.get(it.key):
+            ctx.tie_breaks.append(
+                f"accepted inhomogeneous item {it.key} at {it.src} ({it.note}) changed its VALUE: translated term "
+                f"{pyexpr.lean_expr(it.expr)} instead of the accepted {EXPECTED_TERMS.get(it.key)}")
     ctx.notes["inhomogeneous"] = table
     gone = sorted(set(EXPECTED_INHOMOGENEOUS) - {it.key for it in bad})
     if gone:
@@ -150,6 +214,11 @@ def _report(ctx, data):
             continue
         ctx.tie_breaks.append(f"translator: decision {key} at {src} is outside the translatable subset: {why}")
     ctx.notes["opaque_brackets"] = [f"{a}: `{b}`" for a, b in data["opaque_brackets"]]
+    # what the translation assumes about the files it reads (no wrapping decorators, no state between calls, every
+    # module-level number a declared quantity)
+    for (key, src, text) in data.get("structure", []):
+        ctx.tie_breaks.append(f"translator: {src}: {text}")
+    ctx.notes["module_constants"] = [f"{rel}:{name} (L^{d})" for (rel, name, _, _, d) in data.get("constants", [])]
     req = _required_keys()
     if req is not None:
         have = {it.key for it in items if it.ok}
@@ -494,12 +563,79 @@ SPLINES = [
 ]
 
 
+# SplineGroove given the way a CAD export gives it: a tangent-continuous contour of straight lines and circular arcs,
+# every arc discretised in equal steps of at most `step_deg` degrees (SplineGroove.from_dxf_drawing: 0.5 degree per
+# segment by default).  Where the contour leaves the face TANGENTIALLY (a fillet), its first vertices rise above the face
+# by only r (1 - cos(step)), r (1 - cos(2 step)), ... - the inputs on which an absolute tolerance on coordinates shows.
+# `path`: the right half from the groove centre outwards, [("line", length) | ("arc", radius, turn in degrees)], positive
+# turn = towards the face; lengths in mm.  The path must end heading along the face (sum of turns 0); `face` = length
+# of the face run appended.
+SAMPLED_SPLINES = [
+    # circular oval: main arc r2, fillet r1
+    ("oval", dict(path=[("arc", 40.0, 34.3), ("arc", 6.0, -34.3)], face=5.0, step_deg=0.5), ["spline", "oval"]),
+    ("oval-small-fillet", dict(path=[("arc", 33.0, 28.0), ("arc", 3.0, -28.0)], face=3.0, step_deg=0.5), ["spline", "oval"]),
+    # box: flat ground, bottom radius, straight flank, fillet
+    ("box", dict(path=[("line", 30.0), ("arc", 12.0, 78.0), ("line", 25.0), ("arc", 10.0, -78.0)], face=8.0, step_deg=1.0),
+     ["spline", "box"]),
+    # false round / flanked: arc, flank, fillet
+    ("flanked", dict(path=[("arc", 19.0, 60.0), ("line", 6.0), ("arc", 4.0, -60.0)], face=4.0, step_deg=0.5),
+     ["spline", "round"]),
+    # three radii
+    ("three-radii", dict(path=[("arc", 120.0, 8.0), ("arc", 25.0, 40.0), ("arc", 8.0, -48.0)], face=6.0, step_deg=0.25),
+     ["spline", "oval"]),
+    # corner type (no fillet): the control - nothing is near the face
+    ("corner", dict(path=[("line", 5.0), ("arc", 10.0, 45.0), ("line", 12.0)], face=5.0, step_deg=2.0, corner=-45.0),
+     ["spline", "diamond"]),
+]
+
+
+def _sample_contour(p):
+    """-> list of (z, y) in the units of `p`, z ascending, face runs at both ends at y = 0 exactly"""
+    z, y, th = 0.0, 0.0, 0.0          # start at the groove centre (deepest point), heading outwards; y measured downwards
+    pts = [(z, y)]
+    for el in p["path"]:
+        if el[0] == "line":
+            z, y = z + el[1] * math.cos(th), y + el[1] * math.sin(th)
+            pts.append((z, y))
+        else:
+            _, r, turn = el
+            n = max(1, int(math.ceil(abs(turn) / p["step_deg"] - 1e-9)))
+            sgn = 1.0 if turn > 0 else -1.0
+            cz, cy = z - sgn * r * math.sin(th), y + sgn * r * math.cos(th)
+            for i in range(1, n + 1):
+                a = th + math.radians(turn) * i / n
+                pts.append((cz + sgn * r * math.sin(a), cy - sgn * r * math.cos(a)))
+            th += math.radians(turn)
+            z, y = pts[-1]
+    if "corner" in p:                 # corner type: the face starts with a kink
+        th += math.radians(p["corner"])
+    if abs(math.sin(th)) > 1e-9:
+        raise ValueError("sampled contour does not end heading along the face")      # harness error (bad catalogue entry)
+    depth = y                         # the face is `depth` below the start: re-reference y to the face, upwards positive
+    right = [(a, depth - b) for a, b in pts[:-1]] + [(pts[-1][0], 0.0), (pts[-1][0] + p["face"], 0.0)]
+    left = [(-a, b) for a, b in right[1:]][::-1]
+    return left + right
+
+
+def _smallest_rise(points):
+    """smallest non-zero distance of a contour vertex from the face line"""
+    ys = [abs(y) for _, y in points if y != 0.0]
+    return min(ys) if ys else math.inf
+
+
+def _spline_points(spec):
+    if "sampled" in spec:
+        sc = spec.get("scale", 1.0)
+        return [(z * sc, y * sc) for z, y in _sample_contour(spec["sampled"])]
+    return spec["lengths"]["points"]
+
+
 def _build_groove(spec, factor):
     import pyroll.core as pr
     cls = getattr(pr, spec["cls"])
     if spec["cls"] == "SplineGroove":
         kw = dict(spec["other"])
-        kw["contour_points"] = [(z * factor, y * factor) for z, y in spec["lengths"]["points"]]
+        kw["contour_points"] = [(z * factor, y * factor) for z, y in _spline_points(spec)]
         if "usable_width" in spec["lengths"]:
             kw["usable_width"] = spec["lengths"]["usable_width"] * factor
         return cls(**kw)
@@ -608,7 +744,7 @@ def _plain_correspondence(ctx, data, n_each):
     """solver / plumbing / decision / argument terms: Lean Float evaluation vs the python evaluation of the same tuple
     (checks the emission), and np.isclose terms against numpy itself"""
     import numpy as np
-    kinds = ("residual", "map", "closed", "bracket", "start", "plumb", "decision", "isclose", "arg", "sum")
+    kinds = ("residual", "map", "closed", "bracket", "start", "plumb", "decision", "isclose", "arg", "sum", "attr")
     jobs, lines = [], []
     for it in data["items"]:
         if it.kind not in kinds:
@@ -682,8 +818,19 @@ def _residual_at_roots(ctx, data, n):
         cases.append(("r1234_free", S.solve_r1234, dict(r1=5 * s, r2=30 * s, r3=5 * s, r4=10 * s, depth=16 * s,
                                                         width=93.3444 * s, indent=10 * s, pad_angle=0.0),
                       lambda ret: {"_x0": ret["alpha2"], "_x1": ret["alpha3"], "_x2": ret["alpha4"]}, None))
-    jobs, lines = [], []
+    # every call is followed by a NEAR-IDENTICAL one (one length changed by a relative 1e-5 .. 1e-3): the contract holds
+    # for each call on its own arguments - a solver that answers from what it solved before (memo on rounded arguments,
+    # warm start kept at module level) returns angles that are not a root of the second problem
+    paired = []
     for (pname, fn, kw, unknowns, suffixes) in cases:
+        paired.append((pname, fn, kw, unknowns, suffixes))
+        lk = sorted(k_ for k_, v in kw.items() if v is not None and c11_dims.var_dim(k_) == 1 and v != 0.0)
+        kw2 = dict(kw)
+        nk = rng.choice(lk)
+        kw2[nk] = kw[nk] * (1 + rng.choice([-1, 1]) * 10 ** rng.uniform(-5, -3))
+        paired.append((pname, fn, kw2, unknowns, suffixes))
+    jobs, lines = [], []
+    for (pname, fn, kw, unknowns, suffixes) in paired:
         try:
             with np.errstate(all="ignore"):
                 ret = fn(**kw)
@@ -861,23 +1008,22 @@ _GROOVE_ATTRS = ["usable_width", "depth", "width", "ground_width", "even_ground_
                 [f"{c}{i}" for c in "zy" for i in range(13)]
 
 
-def _groove_problems(spec, base, k):
-    """the same groove described with factor `base` and with `base * k`"""
+def _build_or_exc(spec, factor):
+    """groove object, or the exception the implementation raised"""
     import numpy as np
     try:
         with np.errstate(all="ignore"):
-            ga = _build_groove(spec, base)
+            return _build_groove(spec, factor)
     except Exception as ex:
         if not _impl_raised(ex):
             raise
-        ga = ex
-    try:
-        with np.errstate(all="ignore"):
-            gb = _build_groove(spec, base * k)
-    except Exception as ex:
-        if not _impl_raised(ex):
-            raise
-        gb = ex
+        return ex
+
+
+def _groove_pair_problems(spec, ga, gb, k):
+    """ga: the groove as described, gb: the same groove described with every length multiplied by k (either may be the
+    exception raised by the constructor)"""
+    import numpy as np
     if isinstance(ga, Exception) or isinstance(gb, Exception):
         if isinstance(ga, Exception) and isinstance(gb, Exception):
             return None            # rejected in both descriptions: consistent, not a case
@@ -898,6 +1044,8 @@ def _groove_problems(spec, base, k):
     _cmp_value("groove.contour_points", ga.contour_points, gb.contour_points, k, 1, rtol, probs, size, missing)
     _cmp_value("groove.cross_section", ga.cross_section, gb.cross_section, k, 1, rtol, probs, size, missing)
     _cmp_value("groove.cross_section.area", ga.cross_section.area, gb.cross_section.area, k, 2, rtol, probs, size, missing)
+    _cmp_value("groove.contour_line", ga.contour_line, gb.contour_line, k, 1, rtol, probs, size, missing)
+    _cmp_value("groove.contour_line.length", ga.contour_line.length, gb.contour_line.length, k, 1, rtol, probs, size, missing)
     _cmp_value("groove.classifiers", set(ga.classifiers), set(gb.classifiers), k, None, rtol, probs, size, missing)
     zs = np.linspace(-0.6, 0.6, 41) * float(ga.width)
     with np.errstate(all="ignore"):
@@ -905,6 +1053,28 @@ def _groove_problems(spec, base, k):
     if missing:
         probs.append(("groove:undeclared", f"attributes without a declared dimension: {sorted(missing)}"))
     return probs
+
+
+def _groove_problems(spec, base, k):
+    """the same groove described with factor `base` and with `base * k`"""
+    return _groove_pair_problems(spec, _build_or_exc(spec, base), _build_or_exc(spec, base * k), k)
+
+
+def _study_problems(members, base, k):
+    """A parameter study / design iteration: the grooves `members` are constructed one after the other in one process,
+    once described with factor `base` and once with `base * k`.  Every member of the scaled study must be the scaled
+    member of the unscaled study - whatever was constructed before it (the statement is about EVERY groove and
+    parameter set; a result that depends on the history of the process in one unit and not in the other breaks it)."""
+    run_a = [_build_or_exc(m, base) for m in members]
+    run_b = [_build_or_exc(m, base * k) for m in members]
+    probs, live = [], 0
+    for i, (m, ga, gb) in enumerate(zip(members, run_a, run_b)):
+        pr_ = _groove_pair_problems(m, ga, gb, k)
+        if pr_ is None:
+            continue
+        live += 1
+        probs += [("study-member:" + key, f"member {i + 1} of {len(members)}: " + what) for key, what in pr_]
+    return None if live == 0 else probs
 
 
 def _run_grooves(ctx):
@@ -937,6 +1107,124 @@ def _run_grooves(ctx):
 
 def _key(key):
     return "tworun-" + key.replace(".", "-").replace(":", "-")
+
+
+# Input regimes that are reported under ONE key of their own (whatever deviates), so that a defect living in such a regime
+# is one item to repair or to list, and does not hide behind / drown the per-hook keys of the ordinary cases.  A regime
+# is defined by the INPUT alone (never by what went wrong).
+THREE_ROLL_BAR_RANGE = 2.0     # three-roll blocks roll wire rod and bar: the 55 mm layouts up to 2x are "ordinary"
+
+
+def _groove_regime(spec, base, k):
+    """a sampled spline contour whose fillet vertices rise less than 2e-8 above the face in the smaller description
+    (thin-wire grooves described in metres, very fine sampling)"""
+    if spec.get("cls") == "SplineGroove" and "sampled" in spec:
+        if _smallest_rise(_spline_points(spec)) * min(base, base * k) < 2 * ACCEPTED_COORDINATE_ATOL:
+            return "spline-face-thin-fillet"
+    return None
+
+
+def _sequence_regime(units, real_size, fa, fb):
+    for u in units:
+        if "groove" in u and _groove_regime(u["groove"], fa, fb / fa):
+            return "spline-face-thin-fillet"
+    if real_size > THREE_ROLL_BAR_RANGE and any(u["u"] == "pass3" for u in units):
+        return "three-roll-large-product"
+    return None
+
+
+def _emit(ctx, regime, probs, pre, rp):
+    if not probs:
+        return
+    if regime is None:
+        for key, what in probs:
+            ctx.violation(_key(key), pre + what, rp)
+        return
+    keys = sorted({_key(k_) for k_, _ in probs})
+    ctx.violation("tworun-" + regime, pre + f"{len(probs)} deviations between the two descriptions ({', '.join(keys[:8])}"
+                  + (", ..." if len(keys) > 8 else "") + "); first: " + probs[0][1], rp)
+
+
+def _run_corpus(ctx):
+    """past failures first"""
+    for r in CORPUS:
+        replay(ctx, {"replay": r})
+        ctx.case(["corpus", r["kind"], r.get("name") or r["spec"]["cls"]])
+        ctx.count("corpus")
+
+
+def _run_sampled_splines(ctx):
+    """finely sampled, tangent-continuous spline contours (CAD exports) of thin-wire to bloom size, between the
+    descriptions in metres and in millimetres.  Where the contour leaves the face through a fillet, the first vertices
+    rise above the face by r (1 - cos(step)) only: 1e-7 m for r = 3 mm at 0.5 degree, 4e-9 m for the 0.1 mm fillet of a
+    thin-wire groove - whatever compares ordinates with an absolute number shows here."""
+    rng = ctx.rng
+    pairs = [("m", "mm"), ("m", "inch"), ("m", "cm"), ("mm", "m"), ("cm", "inch"), ("m", "dm")]
+    n = ctx.budget(3 * len(SAMPLED_SPLINES), 60 * len(SAMPLED_SPLINES))
+    for i in range(n):
+        name, sp, cl = SAMPLED_SPLINES[i % len(SAMPLED_SPLINES)]
+        rnd = i // len(SAMPLED_SPLINES)
+        sp = dict(sp)
+        if rnd > 0:
+            sp["step_deg"] = rng.choice([0.25, 0.5, 0.5, 1.0, 2.0, 5.0])
+        # real size: the catalogue (grooves for 20 .. 60 mm stock) from 1/30 (thin wire) to 10 times; range ends first
+        size = [1.0, 1 / 30, 10.0][rnd] if rnd < 3 else math.exp(rng.uniform(math.log(1 / 30), math.log(10)))
+        ua, ub = pairs[(rnd + i) % len(pairs)] if rnd != 1 else pairs[i % 4]
+        spec = {"cls": "SplineGroove", "sampled": sp, "scale": size, "lengths": {}, "other": {"classifiers": cl}}
+        if rng.random() < 0.3:
+            w = _spline_points(spec)[-1][0] * 2
+            spec["lengths"] = {"usable_width": w * rng.uniform(0.8, 0.98)}
+        base, k = 1e-3 * UNITS[ua], UNITS[ub] / UNITS[ua]       # the catalogue is in millimetres
+        rise = _smallest_rise(_spline_points(spec)) * min(base, base * k)
+        probs = _groove_problems(spec, base, k)
+        if probs is None:
+            ctx.count("groove:rejected-in-both")
+            continue
+        ctx.case(["spline-sampled", name, sp["step_deg"], round(size, 6), ua, ub, sorted(spec["lengths"])])
+        ctx.count("spline-sampled:" + name)
+        ctx.count("spline-sampled-rise:1e%+d" % math.floor(math.log10(rise)))
+        _emit(ctx, _groove_regime(spec, base, k), [("sampled-" + k_, w_) for k_, w_ in probs],
+              f"SplineGroove ({name}, {sp['step_deg']} degree per segment, size x{size:.3g}, smallest rise above the face "
+              f"{rise:.3g} in the smaller description): ",
+              {"kind": "groove", "spec": spec, "base": base, "k": k, "prefix": "sampled-"})
+
+
+def _study_members(rng, cname, lengths, other):
+    """a design iteration around one catalogue entry: 2-4 parameter sets that differ in ONE length by a relative
+    1e-5 .. 2e-3 (hundredths of a millimetre on a 30 mm groove), in different orders, with repeats"""
+    def spec(L):
+        return {"cls": cname, "lengths": L, "other": other}
+    name = rng.choice(sorted(lengths))
+    d1 = rng.choice([-1, 1]) * 10 ** rng.uniform(-5, -2.7)
+    d2 = rng.choice([-1, 1]) * 10 ** rng.uniform(-5, -2.7)
+    a = dict(lengths)
+    b = dict(lengths, **{name: lengths[name] * (1 + d1)})
+    c = dict(lengths, **{name: lengths[name] * (1 + d1 + d2)})
+    pattern = rng.choice(["abc", "aba", "abca", "ab", "aab", "ba"])
+    return [spec({"a": a, "b": b, "c": c}[ch]) for ch in pattern], name, pattern
+
+
+def _run_studies(ctx):
+    rng = ctx.rng
+    ks = [1e3, 1 / 0.0254 * 1e-3 * 1e3, 1e2, 25.4, 10.0, 1e-3, 1e-1]
+    n = ctx.budget(len(GROOVES), 30 * len(GROOVES))
+    for i in range(n):
+        cname, lengths, other = GROOVES[i % len(GROOVES)]
+        members, pname, pattern = _study_members(rng, cname, lengths, other)
+        size = 1.0 if i < len(GROOVES) else math.exp(rng.uniform(math.log(0.1), math.log(10)))
+        base = 1e-3 * size                     # the study described in metres ...
+        k = ks[0] if i < len(GROOVES) else rng.choice(ks)   # ... and in millimetres / inches / ...
+        probs = _study_problems(members, base, k)
+        if probs is None:
+            ctx.count("study:rejected-in-both")
+            continue
+        ctx.case(["study", cname, pattern, pname, [sorted((a, round(b, 12)) for a, b in m["lengths"].items()) for m in members],
+                  round(math.log10(base), 3), round(math.log10(k), 3)])
+        ctx.count("study:" + cname)
+        ctx.count("study-pattern:" + pattern)
+        for key, what in probs:
+            ctx.violation(_key(key), f"{cname} study ({pattern}, varying {pname}): " + what,
+                          {"kind": "study", "members": members, "base": base, "k": k})
 
 
 # ---- profiles ---------------------------------------------------------------------------------------------------------
@@ -1089,6 +1377,87 @@ def _seq_specs(rng):
     yield "box-oval", bx(), [oval(f()), t_len(0.8)]
 
 
+def _sizing_specs(rng, first):
+    """round sizing stands that only just touch the stock: height reduction eps of 0.03 % .. 3 % (the displaced
+    cross-section is a sliver of ~ 0.9 D^2 eps).  Lengths in metres for a 30 mm product, like _seq_specs."""
+    D = 30e-3
+
+    def sizing(eps, d=D):
+        return {"u": "pass", "groove": {"cls": "RoundGroove", "lengths": dict(r1=0.05 * d, r2=0.5 * d, depth=0.42 * d),
+                                        "other": {}},
+                "lengths": dict(gap=d * (0.16 - eps)), "roll": dict(nominal_radius=160e-3)}
+
+    def t_dur(d=0.5):
+        return {"u": "transport", "lengths": {}, "other": {"duration": d}}
+    e = (lambda lo, hi: 10 ** rng.uniform(lo, hi))
+    rd = {"factory": "round", "lengths": {"diameter": D}}
+    e1 = 2e-3 if first else e(-3.5, -1.5)
+    yield "sizing-single", rd, [sizing(e1)]
+    e1, e2 = (4e-3, 1e-3) if first else (e(-3.5, -1.5), e(-3.5, -2))
+    # the second stand works on the same axis (explicit rotator by 0 degree: no automatic rotation), on what the first left
+    yield "sizing-double", rd, [sizing(e1), t_dur(), {"u": "rotator", "lengths": {}, "other": {"rotation": 0}},
+                                sizing(e2, D * (1 - e1))]
+    g = 0.9 if first else rng.uniform(0.85, 1.0)
+    yield "oval-round-sizing", {"factory": "round", "lengths": {"diameter": D * g}}, [
+        {"u": "pass", "groove": {"cls": "CircularOvalGroove", "lengths": dict(depth=8e-3, r1=6e-3, r2=40e-3), "other": {}},
+         "lengths": dict(gap=2e-3), "roll": dict(nominal_radius=160e-3)}, t_dur(1.0),
+        {"u": "pass", "groove": {"cls": "RoundGroove", "lengths": dict(r1=1e-3, r2=12.5e-3, depth=11.5e-3), "other": {}},
+         "lengths": dict(gap=2e-3), "roll": dict(nominal_radius=160e-3)}, t_dur(1.0),
+        sizing(5e-3 if first else e(-3, -1.7), 25e-3)]
+
+
+def _spline_pass_specs(rng):
+    """passes whose groove is a finely sampled SplineGroove (lengths in metres: the sampled catalogue is in mm)"""
+    for (name, sp, cl), dia in ((SAMPLED_SPLINES[0], 30e-3), (SAMPLED_SPLINES[1], 22e-3), (SAMPLED_SPLINES[3], 40e-3)):
+        g = {"cls": "SplineGroove", "sampled": sp, "scale": 1e-3, "lengths": {}, "other": {"classifiers": cl}}
+        yield "spline-pass-" + name, {"factory": "round", "lengths": {"diameter": dia * rng.uniform(0.95, 1.02)}}, [
+            {"u": "pass", "groove": g, "lengths": dict(gap=2e-3), "roll": dict(nominal_radius=160e-3)}]
+
+
+def _scale_layout(in_spec, units, s):
+    """the same layout for a product `s` times as large (every length of the specification multiplied by s)"""
+    import copy
+    in_spec, units = copy.deepcopy(in_spec), copy.deepcopy(units)
+    in_spec["lengths"] = {n: v * s for n, v in in_spec["lengths"].items()}
+    for u in units:
+        u["lengths"] = {n: v * s for n, v in u["lengths"].items()}
+        if "roll" in u:
+            u["roll"] = {n: v * s for n, v in u["roll"].items()}
+        if "neutral_point" in u:
+            u["neutral_point"] *= s
+        if "groove" in u:
+            g = u["groove"]
+            if "sampled" in g:
+                g["scale"] = g.get("scale", 1.0) * s
+            g["lengths"] = {n: v * s for n, v in g["lengths"].items()}
+    return in_spec, units
+
+
+def _vary_inputs(rng, units):
+    """explicit values for inputs that usually default to / are derived from another one: the roll given by its nominal
+    DIAMETER, the pass driven by an explicit velocity (lengths in the units of the specification, i.e. metres)"""
+    for u in units:
+        if "roll" not in u:
+            continue
+        if rng.random() < 0.4 and "nominal_radius" in u["roll"]:
+            u["roll"] = dict(u["roll"], nominal_diameter=2 * u["roll"].pop("nominal_radius"))
+        r = u["roll"].get("nominal_radius", u["roll"].get("nominal_diameter", 0) / 2)
+        by = rng.choice(["rotational_frequency", "surface_velocity", "working_velocity", "velocity"])
+        if by == "rotational_frequency":
+            u["drive"] = {"by": by, "value": rng.uniform(0.5, 5)}
+        else:
+            u["drive"] = {"by": by, "value": 2 * math.pi * r * rng.uniform(0.5, 5)}
+    return units
+
+
+def _smallest_feature(g):
+    """smallest length of a groove specification"""
+    if "sampled" in g:
+        vals = [el[1] for el in g["sampled"]["path"]] + [g["sampled"]["face"]]
+        return min(vals) * g.get("scale", 1.0)
+    return min(g["lengths"].values())
+
+
 def _build_sequence(in_spec, units, factor):
     import pyroll.core as pr
     seq = []
@@ -1096,8 +1465,17 @@ def _build_sequence(in_spec, units, factor):
         L = {n: v * factor for n, v in u["lengths"].items()}
         if u["u"] in ("pass", "pass3"):
             roll_kw = {n: v * factor for n, v in u["roll"].items()}
-            roll = pr.Roll(groove=_build_groove(u["groove"], factor), rotational_frequency=1.0, **roll_kw)
             extra = {}
+            # how the pass is driven: by default the rotational frequency (a fixed time quantity); alternatively an explicit
+            # velocity (a LENGTH per time: scaled with the unit) of the roll surface / at the working radius / of the stock
+            drive = u.get("drive", {"by": "rotational_frequency", "value": 1.0})
+            if drive["by"] == "rotational_frequency":
+                roll_kw["rotational_frequency"] = drive["value"]
+            elif drive["by"] in ("surface_velocity", "working_velocity"):
+                roll_kw[drive["by"]] = drive["value"] * factor
+            else:
+                extra["velocity"] = drive["value"] * factor
+            roll = pr.Roll(groove=_build_groove(u["groove"], factor), **roll_kw)
             if "neutral_point" in u:
                 roll.neutral_point = u["neutral_point"] * factor
             cls = pr.ThreeRollPass if u["u"] == "pass3" else pr.RollPass
@@ -1138,14 +1516,18 @@ class _IterationLog:
         self.lg.setLevel(self.old)
 
 
-def _solve(in_spec, units, factor, velocity=None):
-    """-> (sequence, iteration records) or exception raised inside the implementation"""
+def _solve(in_spec, units, factor, velocity=None, resolve=False):
+    """-> (sequence, iteration records) or exception raised inside the implementation.  `resolve`: the sequence is
+    solved a second time on the used objects (the way a parameter study re-runs a model); the records and values of
+    BOTH runs are what is compared"""
     import numpy as np
     seq, ip = _build_sequence(in_spec, units, factor)
     with _IterationLog() as log, np.errstate(all="ignore"):
         try:
             if velocity is None:
                 seq.solve(ip)
+                if resolve:
+                    seq.solve(ip)
             elif velocity[0] == "forward":
                 seq.solve_velocities_forward(ip, velocity[1] * factor)
             else:
@@ -1157,16 +1539,39 @@ def _solve(in_spec, units, factor, velocity=None):
     return seq, log.records
 
 
-def _sequence_problems(name, in_spec, units, fa, fb, velocity=None):
-    """the same process described with unit factors fa (reference) and fb; k = fb / fa"""
+def _presolve_problems(in_spec, units, fa, fb):
+    """what can be read on the constructed objects BEFORE they are handed to solve (pass height, usable width, roll radii,
+    the groove, the incoming profile ...) on separately built objects, so that reading does not touch the solved runs.
+    A hook that has no value yet (needs the profiles) raises in both descriptions alike."""
+    import numpy as np
     k = fb / fa
-    sa, ra = _solve(in_spec, units, fa, velocity)
-    sb, rb = _solve(in_spec, units, fb, velocity)
+    probs, missing = [], set()
+    with np.errstate(all="ignore"):
+        (qa, ia), (qb, ib) = _build_sequence(in_spec, units, fa), _build_sequence(in_spec, units, fb)
+        size = float(ia.width)
+        _cmp_objects("presolve.in_profile", ia, ib, k, 1e-9, probs, size, missing)
+        for j, (x, y) in enumerate(zip(qa.units, qb.units)):
+            tag = f"presolve.unit{j}({type(x).__name__})"
+            _cmp_objects(tag, x, y, k, 1e-9, probs, size, missing)
+            if hasattr(x, "roll"):
+                _cmp_objects(tag + ".roll", x.roll, y.roll, k, 1e-9, probs, size, missing)
+    if missing:
+        probs.append(("presolve:undeclared", f"hooks without a declared dimension: {sorted(missing)}"))
+    return probs
+
+
+def _sequence_problems(name, in_spec, units, fa, fb, velocity=None, real_size=1.0, resolve=False):
+    """the same process described with unit factors fa (reference) and fb; k = fb / fa.  `real_size`: size of the product
+    relative to the 30 mm bar the layouts are written for (only sets the magnitude deviations are measured against)"""
+    k = fb / fa
+    pre = _presolve_problems(in_spec, units, fa, fb)
+    sa, ra = _solve(in_spec, units, fa, velocity, resolve)
+    sb, rb = _solve(in_spec, units, fb, velocity, resolve)
     if isinstance(sa, Exception) or isinstance(sb, Exception):
         if isinstance(sa, Exception) and isinstance(sb, Exception) and type(sa) is type(sb):
             return ("both-raise", f"{type(sa).__name__}: {sa}")
         return [("sequence:solves-in-one-unit-only", f"{name}: {sa!r} with factor {fa} vs {sb!r} with factor {fb}")]
-    probs, missing = [], set()
+    probs, missing = list(pre), set()
     if ra != rb:
         diff = [(x, y) for x, y in zip(ra, rb) if x != y][:3]
         outer = [sum(1 for m in r if "PassSequence" in m) for r in (ra, rb)]
@@ -1179,8 +1584,8 @@ def _sequence_problems(name, in_spec, units, fa, fb, velocity=None):
     # as inhomogeneous): each contact line is ~1e-9 / sin(angle) longer at both ends, i.e. relatively 1e-9 / feature size,
     # and the angle between its last vertices moves by 1e-9 / segment length.  In a three-roll pass the contact area of the
     # roll is computed from the width of a contact line, so roll force, torque, power inherit it.
-    small = min(min(u["groove"]["lengths"].values()) for u in units if "groove" in u) * min(fa, fb)
-    size = 30e-3 * fa
+    small = min(_smallest_feature(u["groove"]) for u in units if "groove" in u) * min(fa, fb)
+    size = 30e-3 * real_size * fa
     rtol = 1e-9
     rtol_buffer = rtol + 50 * 1e-9 / small
     affected = {"contact_lines", "contact_angles", "free_surface_lines", "contact_width", "contact_depth"}
@@ -1206,6 +1611,43 @@ UNIT_PAIRS = [("m", "mm"), ("mm", "m"), ("m", "cm"), ("m", "inch"), ("mm", "inch
               ("cm", "mm"), ("inch", "m")]
 
 
+# pairs with the description in metres on one side (the end of the stated range at which small products have the smallest
+# numbers) - used for the streams that vary the real size of the product
+UNIT_PAIRS_M = [("m", "mm"), ("mm", "m"), ("m", "inch"), ("m", "cm"), ("inch", "m"), ("m", "dm")]
+# real product sizes relative to the 30 mm bar of the layouts: 1 mm wire ... 300 mm bloom, range ends first
+REAL_SIZES = [1 / 30, 10.0, 1 / 25, 1 / 10, 1 / 3, 3.0]
+
+
+def _real_size(rng, i, units, lo=1 / 30, hi=10.0):
+    if i < 2 * len(REAL_SIZES):
+        return REAL_SIZES[i % len(REAL_SIZES)]
+    return math.exp(rng.uniform(math.log(lo), math.log(hi)))
+
+
+def _sequence_case(ctx, stream, i, name, in_spec, units, ua, ub, real_size=1.0, resolve=False):
+    fa, fb = UNITS[ua], UNITS[ub]
+    probs = _sequence_problems(name, in_spec, units, fa, fb, real_size=real_size, resolve=resolve)
+    if isinstance(probs, tuple):
+        ctx.count("sequence:fails-in-both")
+        ctx.notes.setdefault("sequences_failing_in_both_descriptions", {})[name] = probs[1][:300]
+        return
+    ctx.case(["sequence", name, ua, ub, resolve,
+              [sorted((a, round(b, 12)) for a, b in u["lengths"].items()) for u in units],
+              sorted((a, round(b, 12)) for a, b in in_spec["lengths"].items())])
+    ctx.count("sequence:" + name)
+    ctx.count(f"sequence-units:{ua}->{ub}")
+    if stream != "layout":
+        ctx.count("sequence-stream:" + stream)
+        ctx.count("sequence-real-size:1e%+d mm" % round(math.log10(30 * real_size)))
+    if resolve:
+        ctx.count("sequence:solved-twice")
+    _emit(ctx, _sequence_regime(units, real_size, fa, fb), probs, "",
+          {"kind": "sequence", "name": name, "in": in_spec, "units": units, "unit_a": ua, "unit_b": ub,
+           "real_size": real_size, "resolve": resolve})
+    if len(ctx.samples) < 3:
+        ctx.sample({"sequence": name, "units": [u["u"] for u in units], "described_in": [ua, ub]})
+
+
 def _run_sequences(ctx):
     rng = ctx.rng
     n = ctx.budget(20, 300)
@@ -1214,21 +1656,46 @@ def _run_sequences(ctx):
         specs += list(_seq_specs(rng))
     for i, (name, in_spec, units) in enumerate(specs[:n]):
         ua, ub = UNIT_PAIRS[(i + ctx.seed) % len(UNIT_PAIRS)]
-        fa, fb = UNITS[ua], UNITS[ub]
-        probs = _sequence_problems(name, in_spec, units, fa, fb)
-        if isinstance(probs, tuple):
-            ctx.count("sequence:fails-in-both")
-            ctx.notes.setdefault("sequences_failing_in_both_descriptions", {})[name] = probs[1][:300]
-            continue
-        ctx.case(["sequence", name, ua, ub, [sorted((a, round(b, 9)) for a, b in u["lengths"].items()) for u in units],
-                  sorted((a, round(b, 9)) for a, b in in_spec["lengths"].items())])
-        ctx.count("sequence:" + name)
-        ctx.count(f"sequence-units:{ua}->{ub}")
-        for key, what in probs:
-            ctx.violation(_key(key), what, {"kind": "sequence", "name": name, "in": in_spec, "units": units,
-                                            "unit_a": ua, "unit_b": ub})
-        if len(ctx.samples) < 3:
-            ctx.sample({"sequence": name, "units": [u["u"] for u in units], "described_in": [ua, ub]})
+        # every fourth case: solved a second time on the used objects
+        _sequence_case(ctx, "layout", i, name, in_spec, units, ua, ub, resolve=(i % 4 == 3))
+    # --- the same layouts for products of other real sizes (1 mm wire ... 300 mm bloom)
+    n = ctx.budget(10, 200)
+    specs = []
+    while len(specs) < n:
+        specs += list(_seq_specs(rng))
+    for i, (name, in_spec, units) in enumerate(specs[:n]):
+        rs = _real_size(rng, i, units)
+        in2, units2 = _scale_layout(in_spec, units, rs)
+        if i % 2 == 1:
+            units2 = _vary_inputs(rng, units2)
+            name += "+explicit-drive"
+        ua, ub = UNIT_PAIRS_M[(i + ctx.seed) % len(UNIT_PAIRS_M)]
+        _sequence_case(ctx, "real-size", i, name, in2, units2, ua, ub, real_size=rs)
+    # --- sizing stands that only just touch the stock, products of every real size
+    n = ctx.budget(9, 150)
+    i = 0
+    while i < n:
+        for (name, in_spec, units) in _sizing_specs(rng, first=(i < 3)):
+            if i >= n:
+                break
+            rs = REAL_SIZES[(i // 3) % len(REAL_SIZES)] if i < 3 * len(REAL_SIZES) else \
+                math.exp(rng.uniform(math.log(1 / 30), math.log(10)))
+            in2, units2 = _scale_layout(in_spec, units, rs)
+            ua, ub = UNIT_PAIRS_M[(i + ctx.seed) % len(UNIT_PAIRS_M)]
+            _sequence_case(ctx, "sizing", i, name, in2, units2, ua, ub, real_size=rs)
+            i += 1
+    # --- passes in finely sampled spline grooves
+    n = ctx.budget(3, 45)
+    i = 0
+    while i < n:
+        for (name, in_spec, units) in _spline_pass_specs(rng):
+            if i >= n:
+                break
+            ua, ub = UNIT_PAIRS_M[(i + ctx.seed) % len(UNIT_PAIRS_M)]
+            rs = 1.0 if i < 3 else math.exp(rng.uniform(math.log(1 / 30), math.log(10)))
+            in2, units2 = _scale_layout(in_spec, units, rs)
+            i += 1
+            _sequence_case(ctx, "spline-pass", i, name, in2, units2, ua, ub, real_size=rs)
 
 
 def _run_velocity_loops(ctx):
@@ -1261,25 +1728,33 @@ def _run_velocity_loops(ctx):
 def replay(ctx, data):
     r = data.get("replay", data)
     kind = r.get("kind")
+    regime = None
     if kind == "groove":
         probs = _groove_problems(r["spec"], r["base"], r["k"]) or []
+        probs = [(r.get("prefix", "") + k_, w) for k_, w in probs]
         pre = r["spec"]["cls"] + ": "
+        regime = _groove_regime(r["spec"], r["base"], r["k"])
+    elif kind == "study":
+        probs = _study_problems(r["members"], r["base"], r["k"]) or []
+        pre = r["members"][0]["cls"] + " study: "
     elif kind == "profile":
         probs = _profile_problems(r["spec"], r["base"], r["k"]) or []
         pre = f"Profile.{r['spec']['factory']}: "
     elif kind in ("sequence", "velocity-loop"):
         vel = tuple(r["mode"]) if kind == "velocity-loop" else None
-        probs = _sequence_problems(r["name"], r["in"], r["units"], UNITS[r["unit_a"]], UNITS[r["unit_b"]], vel)
+        probs = _sequence_problems(r["name"], r["in"], r["units"], UNITS[r["unit_a"]], UNITS[r["unit_b"]], vel,
+                                   real_size=r.get("real_size", 1.0), resolve=r.get("resolve", False))
         probs = [] if isinstance(probs, tuple) else probs
         pre = ""
+        if kind == "sequence":
+            regime = _sequence_regime(r["units"], r.get("real_size", 1.0), UNITS[r["unit_a"]], UNITS[r["unit_b"]])
         if kind == "velocity-loop":
             # same key scheme as _run_velocity_loops: lines slower than 0.1 (m/s) are the "slow" regime
             pre_k = "velocity-loop-slow-" if r["mode"][1] < 0.1 else "velocity-loop-"
             probs = [(pre_k + k, w) for k, w in probs]
     else:
         raise NotImplementedError("replay of this kind of case: re-run ./check C11 with the recorded seed")
-    for key, what in probs:
-        ctx.violation(_key(key), pre + what, r)
+    _emit(ctx, regime, probs, pre, r)
 
 
 def run(ctx):
@@ -1292,7 +1767,10 @@ def run(ctx):
         _groove_correspondence(ctx, data, ctx.budget(len(GROOVES), 4 * len(GROOVES)))
         _plain_correspondence(ctx, data, ctx.budget(2, 12))
         _residual_at_roots(ctx, data, ctx.budget(2, 20))
+    _run_corpus(ctx)
     _run_grooves(ctx)
+    _run_sampled_splines(ctx)
+    _run_studies(ctx)
     _run_profiles(ctx)
     _run_sequences(ctx)
     _run_velocity_loops(ctx)
